@@ -66,7 +66,7 @@ def configurations(tier, rng, assigns):
     for nx, ny in ((2, 1), (2, 2), (4, 1), (3, 2)):
         out.append(cfg(4, nx, ny, ["4:4", "2:2", "0:1"] if nx * ny == 2 else ["3:4", "2:2", "0:1"], args=NAIVE, tag="groups:"))
     for nx, ny in ((2, 1), (4, 2), (8, 1), (3, 3)):
-        out.append(cfg(8, nx, ny, ["5:8", "3:4", "1:2", "0"] if (nx * ny == 2 and thorough) else ["3:8", "2:4", "1:2", "0"], args=NAIVE, tag="groups:"))
+        out.append(cfg(8, nx, ny, ["5:8", "3:4", "1:2", "0"] if nx * ny == 2 else ["3:8", "2:4", "1:2", "0"], args=NAIVE, tag="groups:"))
     # ---- prescribed owner maps: every assignment TLC enumerates for 4 cells, on the 2x2 block and the 4x1 strip -------------------
     a4 = [r for r in assigns.get(4, []) if len(r) == 4]
     a4_2 = [r for r in assigns.get(4, []) if len(r) == 2]
@@ -157,13 +157,19 @@ def run_phase(chk, assigns, rng, gdir, binary=None):
         c["id"] = "d%d" % k
         c["out"] = os.path.join(gdir, c["id"])
     # ---- the real code on N ranks (a time-out is re-run alone with six times the budget by vlib.run_cases before it is reported) ----
+    # chunks of one process count each, two mpirun jobs at a time (at most 16 ranks in flight, or one 16-rank job)
     results = {}
-    for nr in sorted({c["nr"] for c in cases}):
+    work = []
+    for nr in sorted({c["nr"] for c in cases}, reverse=True):
         grp = [c for c in cases if c["nr"] == nr]
-        shards = max(1, min(len(grp) // 6 + 1, 12 // nr))
-        res = vlib.run_cases(binary, grp, tmo=60, shards=shards, wrapper=MPIRUN + [str(nr)], max_abnormal=6)
-        for c, rr in zip(grp, res):
-            results[c["id"]] = rr
+        nch = max(1, min(4, len(grp) // 8))
+        work += [(nr, grp[i::nch]) for i in range(nch)]
+    import concurrent.futures as cf
+    with cf.ThreadPoolExecutor(max_workers=1 if any(nr > 8 for nr, _ in work) else 2) as ex:
+        futs = [(grp, ex.submit(vlib.run_cases, binary, grp, tmo=120, shards=1, wrapper=MPIRUN + [str(nr)], max_abnormal=6)) for nr, grp in work]
+        for grp, fu in futs:
+            for c, rr in zip(grp, fu.result()):
+                results[c["id"]] = rr
     good, items, infos = [], [], {}
     for c in cases:
         rr = results[c["id"]]
